@@ -4,6 +4,7 @@ import (
 	"fmt"
 	"go/ast"
 	"go/constant"
+	"go/token"
 	"go/types"
 	"sort"
 	"strings"
@@ -303,6 +304,7 @@ func ruleSENStringWriter(prog *Program, rep *Report) {
 		rep.Errorf("AppendSENString: first-byte quoting decision not found")
 		return
 	}
+	preamble := senPreambleRejects(prog)
 	cells := 0
 	for _, html := range []bool{false, true} {
 		for b := 0; b < 256; b++ {
@@ -311,6 +313,10 @@ func ruleSENStringWriter(prog *Program, rep *Report) {
 			st := newState()
 			st.locals[mObj] = vConstInt(int64(wtab[b]))
 			st.locals[w.params["htmlSafe"]] = vConstBool(html)
+			if so, ok := w.params["s"]; ok {
+				// a one-byte string: tests of s[0] are decided, the length test is not what is examined here
+				st.locals[so] = Val{K: kConst, C: constant.MakeString(string([]byte{byte(b)}))}
+			}
 			mayBare := false
 			w.in.undecided = nil
 			for _, e := range w.in.exec(quoteDef, st) {
@@ -331,6 +337,12 @@ func ruleSENStringWriter(prog *Program, rep *Report) {
 				if o.Flags[quoteObj.Name()] != "true" {
 					forces = false
 				}
+			}
+			if mayBare && !forces && preamble[b] != "" {
+				rep.Violate(Finding{Rule: "G-sen-first", Key: key + ":preamble", Pos: prog.Pos(w.fd.Pos()),
+					Msg: fmt.Sprintf("a string starting with byte %s can be written without quotes, but %s rejects a document that starts with that byte unless it is a byte order mark: a top-level string such as a full-width or private-use character does not parse back", byteName(b), preamble[b])})
+			} else if mayBare && !forces && len(preamble) > 0 {
+				rep.Discharge("G-sen-first", key+":preamble", prog.Pos(w.fd.Pos()), "no entry treats this first byte specially")
 			}
 			if mayBare && !forces {
 				if at(rt.value, b) != rt.tokenStart {
@@ -507,4 +519,81 @@ func ruleSENFollow(prog *Program, rep *Report) {
 	if len(names) < 5 {
 		rep.Errorf("G-sen-space found %d token/number modes (floor 5)", len(names))
 	}
+}
+
+// senPreambleRejects: first bytes for which a []byte entry of the SEN front-ends returns an error before
+// the dispatch function sees the input (`if ... buf[0] == C { if <bom> {...} else { return error } }`).
+func senPreambleRejects(prog *Program) map[int]string {
+	return preambleRejects(prog, "sen", "", map[string]bool{"Parse": true, "Tokenize": true})
+}
+
+// preambleRejects: the same for the methods named in names of type typ ("" any) of package rel.
+func preambleRejects(prog *Program, rel, typ string, names map[string]bool) map[int]string {
+	out := map[int]string{}
+	pk := prog.Pkg(rel)
+	if pk == nil {
+		return out
+	}
+	info := pk.TypesInfo
+	for _, f := range pk.Syntax {
+		for _, d := range f.Decls {
+			fd, ok := d.(*ast.FuncDecl)
+			if !ok || fd.Body == nil || fd.Recv == nil || !names[fd.Name.Name] {
+				continue
+			}
+			if typ != "" && strings.ReplaceAll(types.ExprString(fd.Recv.List[0].Type), "*", "") != typ {
+				continue
+			}
+			ast.Inspect(fd.Body, func(n ast.Node) bool {
+				ifs, ok := n.(*ast.IfStmt)
+				if !ok {
+					return true
+				}
+				// a conjunct X[0] == C
+				first := -1
+				var walk func(e ast.Expr)
+				walk = func(e ast.Expr) {
+					switch x := ast.Unparen(e).(type) {
+					case *ast.BinaryExpr:
+						if x.Op == token.LAND {
+							walk(x.X)
+							walk(x.Y)
+							return
+						}
+						if x.Op == token.EQL {
+							if ix, ok := ast.Unparen(x.X).(*ast.IndexExpr); ok {
+								if iv, ok := info.Types[ix.Index]; ok && iv.Value != nil && iv.Value.String() == "0" {
+									if cv, ok := info.Types[x.Y]; ok && cv.Value != nil {
+										if v, ok := constant.Int64Val(cv.Value); ok {
+											first = int(v)
+										}
+									}
+								}
+							}
+						}
+					}
+				}
+				walk(ifs.Cond)
+				if first < 0 {
+					return true
+				}
+				// some return of a non-nil error inside the then-branch
+				ast.Inspect(ifs.Body, func(k ast.Node) bool {
+					rs, ok := k.(*ast.ReturnStmt)
+					if !ok || len(rs.Results) == 0 {
+						return true
+					}
+					last := rs.Results[len(rs.Results)-1]
+					if tv, ok := info.Types[last]; ok && !tv.IsNil() {
+						if _, isCall := ast.Unparen(last).(*ast.CallExpr); isCall {
+							out[first] = rel + "." + strings.ReplaceAll(types.ExprString(fd.Recv.List[0].Type), "*", "") + "." + fd.Name.Name
+						}
+					}
+					return true
+				})
+				return true
+			})
+		}
+	}
+	return out
 }
